@@ -5,6 +5,7 @@ import (
 	"bytes"
 	"fmt"
 	"net/http"
+	"os"
 	"net/http/httptest"
 	"path/filepath"
 	"runtime"
@@ -157,6 +158,7 @@ func TestCheck(t *testing.T) {
 		r.RunJobs(len(jobs), par, budget+2*time.Minute)
 		rateLimiter(r)
 		sizeLimits(r)
+	sizeLimitsAcrossReload(r)
 	}
 	concurrentAdmission(r, t)
 	concurrentLimiter(r, t)
@@ -185,18 +187,30 @@ func concurrentAdmission(r *runner.Run, t *testing.T) {
 					{Name: "w", Steps: []qsched.Step{{Op: qmodel.Op{Kind: "ack", Lease: "x#1"}}, {Op: qmodel.Op{Kind: "enq", Envs: []qmodel.EnvSpec{env("a")}}}}},
 				},
 			}
-			body, rec := qsched.Body(sc)
-			oracle := func(x *sched.Exec) {
-				if why := lin.Check(rec.Init, rec.Events); why != "" {
-					sched.Failf("%s", why)
+			// second shape: the queue has just refused an enqueue (backends may remember "probably full"), one slot is
+			// freed by an ack while two single enqueues race for it
+			freed := sc
+			freed.Name = fmt.Sprintf("admission-after-refusal-%s-drop%v", backend, drop)
+			freed.Setup = append(append([]qmodel.Op{}, sc.Setup...), qmodel.Op{Kind: "enq", Envs: []qmodel.EnvSpec{env("z")}})
+			freed.Threads = []qsched.Thread{
+				{Name: "p1", Steps: []qsched.Step{{Op: qmodel.Op{Kind: "enq", Envs: []qmodel.EnvSpec{env("a")}}}}},
+				{Name: "p2", Steps: []qsched.Step{{Op: qmodel.Op{Kind: "enq", Envs: []qmodel.EnvSpec{env("b")}}}}},
+				{Name: "w", Steps: []qsched.Step{{Op: qmodel.Op{Kind: "ack", Lease: "x#1"}}}},
+			}
+			for _, one := range []qsched.Scenario{sc, freed} {
+				body, rec := qsched.Body(one)
+				oracle := func(x *sched.Exec) {
+					if why := lin.Check(rec.Init, rec.Events); why != "" {
+						sched.Failf("%s", why)
+					}
 				}
+				bound := runner.Pick(r, 2, 3)
+				if backend == "memory" {
+					bound = -1
+				}
+				schedrun.Run(r, t, schedrun.Spec{Name: one.Name, Bound: bound, Shards: 16, Budget: runner.Pick(r, 15*time.Second, 4*time.Minute), Body: body, Oracle: oracle,
+					VioKey: func(f *sched.Failure) string { return "concurrent-admission:" + backend }})
 			}
-			bound := runner.Pick(r, 2, 3)
-			if backend == "memory" {
-				bound = -1
-			}
-			schedrun.Run(r, t, schedrun.Spec{Name: sc.Name, Bound: bound, Shards: 16, Budget: runner.Pick(r, 15*time.Second, 4*time.Minute), Body: body, Oracle: oracle,
-				VioKey: func(f *sched.Failure) string { return "concurrent-admission:" + backend }})
 		}
 	}
 }
@@ -472,6 +486,132 @@ func listing(st queue.Store) string {
 		fmt.Fprintf(&b, "%s|%s|%s|%x;", e.Route, e.Target, e.State, e.Payload)
 	}
 	return b.String()
+}
+
+// sizeLimitsAcrossReload: the size limits in force are those of the configuration in force. For every ordered pair of
+// limit configurations the application is booted with the first, reloaded (production reload path) to the second, and
+// the complete boundary table of the second is checked, including a route that only exists after the reload and one
+// that falls back to `defaults`.
+type sizeCfg struct {
+	name   string
+	routes map[string][2]int // route -> {max_body, max_headers}; 0 = not set on the route (defaults apply)
+	defB   int               // defaults { max_body }
+	defH   int               // defaults { max_headers }
+}
+
+func (c sizeCfg) text() string {
+	var b strings.Builder
+	b.WriteString("ingress   { listen \"127.0.0.1:18080\" }\npull_api  { listen \"127.0.0.1:19443\"  auth token \"raw:g1\" }\nadmin_api { listen \"127.0.0.1:12019\" }\n")
+	if c.defB > 0 || c.defH > 0 {
+		b.WriteString("defaults {")
+		if c.defB > 0 {
+			fmt.Fprintf(&b, " max_body %d", c.defB)
+		}
+		if c.defH > 0 {
+			fmt.Fprintf(&b, " max_headers %d", c.defH)
+		}
+		b.WriteString(" }\n")
+	}
+	names := make([]string, 0, len(c.routes))
+	for n := range c.routes {
+		names = append(names, n)
+	}
+	sort.Strings(names)
+	for _, n := range names {
+		l := c.routes[n]
+		fmt.Fprintf(&b, "%s {", n)
+		if l[0] > 0 {
+			fmt.Fprintf(&b, " max_body %d", l[0])
+		}
+		if l[1] > 0 {
+			fmt.Fprintf(&b, " max_headers %d", l[1])
+		}
+		fmt.Fprintf(&b, " pull { path /e%s } }\n", n[1:])
+	}
+	return b.String()
+}
+
+func (c sizeCfg) limits(route string) (body, hdr int, ok bool) {
+	l, ok := c.routes[route]
+	if !ok {
+		return 0, 0, false
+	}
+	body, hdr = l[0], l[1]
+	if body == 0 {
+		body = c.defB
+	}
+	if hdr == 0 {
+		hdr = c.defH
+	}
+	return body, hdr, true
+}
+
+func sizeLimitsAcrossReload(r *runner.Run) {
+	cfgs := []sizeCfg{
+		{name: "p8/64", routes: map[string][2]int{"/p": {8, 64}}, defB: 10, defH: 70},
+		{name: "p4/40+q6/50", routes: map[string][2]int{"/p": {4, 40}, "/q": {6, 50}}, defB: 10, defH: 70},
+		// the global defaults themselves are documented as restart-required, so they are the same in all three
+		{name: "p-defaults+q", routes: map[string][2]int{"/p": {0, 0}, "/q": {3, 45}}, defB: 10, defH: 70},
+	}
+	for _, from := range cfgs {
+		for _, to := range cfgs {
+			st := queue.NewMemoryStore()
+			a, err := app.VerifBoot(app.VerifBootOptions{Dir: runner.Scratch() + "/sizer", ConfigText: from.text(), Store: st})
+			if err != nil {
+				r.Infra("boot %s: %v", from.name, err)
+				return
+			}
+			if from.name != to.name {
+				os.WriteFile(a.ConfigPath, []byte(to.text()), 0o644)
+				if !a.Reload("verif") {
+					r.Infra("reload %s -> %s failed", from.name, to.name)
+					a.Shutdown()
+					continue
+				}
+			}
+			for _, route := range []string{"/p", "/q"} {
+				mb, mh, exists := to.limits(route)
+				for size := 0; size <= 12; size++ {
+					code := post(a.Ingress, route, bytes.Repeat([]byte{'x'}, size), "")
+					want := 202
+					switch {
+					case !exists:
+						want = 404
+					case size > mb:
+						want = 413
+					}
+					r.Add("size_cases", 1)
+					r.Distinct(fmt.Sprintf("reload-body:%v:%v:%d", exists, size > mb, code))
+					if code != want {
+						r.Violation(fmt.Sprintf("max_body-after-reload:%s->%s:%s", from.name, to.name, route),
+							fmt.Sprintf("booted with %s, reloaded to %s: body of %d bytes on %s answered %d, want %d (max_body in force %d)", from.name, to.name, size, route, code, want, mb),
+							map[string]any{"part": "size-reload", "from": from.name, "to": to.name, "route": route, "size": size}, nil)
+					}
+				}
+				if !exists {
+					continue
+				}
+				for pad := 15; pad <= 60; pad++ {
+					code := post(a.Ingress, route, []byte("x"), "X-Pad: "+strings.Repeat("v", pad)+"\r\n")
+					total := 14 + 1 + 5 + pad
+					want := 202
+					if 1 > mb {
+						want = 413
+					} else if total > mh {
+						want = 413
+					}
+					r.Add("size_cases", 1)
+					r.Distinct(fmt.Sprintf("reload-hdr:%v:%d", total > mh, code))
+					if code != want {
+						r.Violation(fmt.Sprintf("max_headers-after-reload:%s->%s:%s", from.name, to.name, route),
+							fmt.Sprintf("booted with %s, reloaded to %s: headers of %d bytes on %s answered %d, want %d (max_headers in force %d)", from.name, to.name, total, route, code, want, mh),
+							map[string]any{"part": "size-reload", "from": from.name, "to": to.name, "route": route, "pad": pad}, nil)
+					}
+				}
+			}
+			a.Shutdown()
+		}
+	}
 }
 
 func sizeLimits(r *runner.Run) {
